@@ -173,6 +173,7 @@ func execStoreOp(sto blobserver.Storage, pool []poolBlob, refs []blob.Ref, in op
 
 type program struct {
 	Deps    *depsProgram // kind "ixdeps"
+	QD      *qdProgram   // kind "ixquery"
 	Kind    string
 	Max     int
 	Pool    []poolBlob
